@@ -389,7 +389,8 @@ def _check_increment(val, field, tag, findings):
 def _one_unmake(facts, t, fn, C, kind, case, tag, findings, stats, undo_names):
     # pre-state of unmake = post-state of make; expected post = pre-state of make
     pre, post = case["post"], case["pre"]
-    dc = pre_dc = case["pre"].get(case["dst"], 0) if kind != 0 else 0
+    # what make recorded as the destination's content - for the null move that is whatever stands on a8
+    dc = pre_dc = case["pre"].get(case["dst"], 0)
     sym = {"hash": ("sym", "h0"), "castling": ("sym", "cr0"), "ep_source": ("sym", "ep0"),
            "move_counter": ("sym", "mc0"), "move_number": ("sym", "mn0")}
     ufields = []
